@@ -307,6 +307,8 @@ def in_pty(fn, rows=24, cols=80, xpx=640, ypx=384, timeout=60, feed=None):
     import struct
     import termios
 
+    if "tupimage" not in sys.modules:
+        import_impl()   # children must see the implementation of the repository under test
     r, w = os.pipe()
     pid, master = pty.fork()
     if pid == 0:
